@@ -484,7 +484,7 @@ def main(argv=None):
         results = [run_shard(t) for t in tasks]
     else:
         ctxm = mp.get_context("fork")
-        with ctxm.Pool(nproc) as pool:
+        with ctxm.Pool(nproc, maxtasksperchild=1) as pool:  # a fresh fork per shard: what one shard imported or cached never shapes another (Hypothesis seeds its generators with constants found in the modules loaded so far)
             for r in pool.imap_unordered(run_shard, tasks, chunksize=1):
                 results.append(r)
             pool.close()   # let the workers exit by themselves (atexit handlers run: tools/covsurvey.sh needs that)
